@@ -147,6 +147,78 @@ impl Server {
         self.exchange_request(&mut req, app)
     }
 
+    /// Like `exchange`, but `between` runs after intercept_request has passed the request on and
+    /// before the application's reply goes through intercept_response: other requests that the
+    /// server handles while this one is still being worked on.
+    pub fn exchange_overlapped(&mut self, datagram: &[u8], ep: u32, app: &mut dyn FnMut(&CoapRequest<CEp>) -> AppReply, between: &mut dyn FnMut(&mut Server)) -> Exchange {
+        let packet = Packet::from_bytes(datagram).expect("harness generated an undecodable request");
+        let mut req = CoapRequest::from_packet(packet, CEp::new(ep));
+        let mut ex = Exchange {
+            intercept_request: Step::Ok(false),
+            app_called: false,
+            app_saw_payload: None,
+            intercept_response: None,
+            error_applied: None,
+            reply: None,
+            reply_len: None,
+            reply_encode_error: None,
+        };
+        let first = {
+            let handler = &mut self.handler;
+            guard(|| handler.intercept_request(&mut req))
+        };
+        ex.intercept_request = match first {
+            Ok(Ok(b)) => Step::Ok(b),
+            Ok(Err(e)) => Step::Err(e),
+            Err(p) => Step::Panic(p),
+        };
+        match &ex.intercept_request {
+            Step::Panic(_) => return ex,
+            Step::Err(e) => ex.error_applied = Some(req.apply_from_error(e.clone())),
+            Step::Ok(true) => {}
+            Step::Ok(false) => {
+                between(self);
+                self.app_calls += 1;
+                ex.app_called = true;
+                ex.app_saw_payload = Some(req.message.payload.clone());
+                let reply = app(&req);
+                if let Some(resp) = req.response.as_mut() {
+                    resp.message.header.code = MessageClass::from(reply.code);
+                    for (n, v) in &reply.options {
+                        resp.message.add_option(CoapOption::from(*n), v.clone());
+                    }
+                    resp.message.payload = reply.payload;
+                }
+                let handler = &mut self.handler;
+                ex.intercept_response = Some(match guard(|| handler.intercept_response(&mut req)) {
+                    Ok(Ok(b)) => Step::Ok(b),
+                    Ok(Err(e)) => Step::Err(e),
+                    Err(p) => Step::Panic(p),
+                });
+                if let Some(Step::Err(e)) = &ex.intercept_response {
+                    ex.error_applied = Some(req.apply_from_error(e.clone()));
+                }
+                if let Some(Step::Panic(_)) = &ex.intercept_response {
+                    return ex;
+                }
+            }
+        }
+        if let Some(resp) = req.response.as_ref() {
+            match guard(|| resp.message.to_bytes_unlimited()) {
+                Ok(Ok(bytes)) => {
+                    ex.reply_len = Some(bytes.len());
+                    match Packet::from_bytes(&bytes) {
+                        Ok(p) => ex.reply = Some(p),
+                        Err(e) => ex.reply_encode_error = Some(format!("client cannot decode reply: {:?}", e)),
+                    }
+                }
+                Ok(Err(e)) => ex.reply_encode_error = Some(format!("{:?}", e)),
+                Err(p) => ex.reply_encode_error = Some(p.text()),
+            }
+        }
+        ex
+    }
+
     pub fn exchange_request(&mut self, req: &mut CoapRequest<CEp>, app: &mut dyn FnMut(&CoapRequest<CEp>) -> AppReply) -> Exchange {
         let mut ex = Exchange {
             intercept_request: Step::Ok(false),
